@@ -109,6 +109,7 @@ type Exec struct {
 	rtErrT      types.Type
 	syncMaps    map[*Value]*MapV
 	inMerge     int
+	replacers   map[*Value][][2]*StrV
 	digests     map[string][]Value
 	oracle      map[string]int
 	dialConn    Iface
@@ -776,7 +777,11 @@ func (e *Exec) checkIndex(idx *Term, unsigned bool, n int) (int, *Term) {
 		}
 		return int(i), nil
 	}
-	// unsigned compare covers negatives for signed too
+	// widen narrow index types first (n may not be representable in idx.w bits);
+	// an unsigned compare at 64 bits then covers negatives of signed types too
+	if idx.w < 64 {
+		idx = e.tc.Resize(idx, 64, !unsigned)
+	}
 	in := e.tc.Cmp(OpUlt, idx, e.tc.BV(uint64(n), idx.w))
 	if !e.Decide(in) {
 		e.targetPanicStr(fmt.Sprintf("runtime error: index out of range [sym] with length %d", n))
